@@ -16,7 +16,7 @@ RULE = ("exhaustive: every profile over m <= 3 alternatives with <= 3 distinct b
         "profiles under the foreign type labels cat/wmd on a sample; random: m <= 8, <= 9 distinct ballots, "
         "multiplicities <= 50, tie-heavy generators (rotations with equal multiplicities, order + reverse, equal "
         "multiplicities, shared first choices, first-place majorities, single alternative, approval profiles with "
-        "forced equal satisfaction scores). histories (550 quick / 7000 thorough, ~10% of the random cases): ONE OrdinalInstance object filled through append_order / append_order_array / append_order_list / append_vote_map, every rule called, ballots repeating existing orders appended (only multiplicities move, majority flipped), rules called again on the same object, interleaved rule A / append / rule B / rule A; each answer judged against the model on the instance's current multiplicity table. call sequences (300 quick): a call that raises inside a decorated body (missing k, k=0, str k, empty instance, unexpected keyword; not judged) followed IN THE SAME PROCESS by every rule on out-of-domain / in-domain instances (judged: guards and winners); storage order (500 quick): instance.orders permuted in place and / or the multiplicity dict rebuilt in another key order with the same content, then every rule. non-trivial = >= 2 alternatives, >= 2 distinct ballots, some multiplicity > 1")
+        "forced equal satisfaction scores). histories (550 quick / 7000 thorough, ~10% of the random cases): ONE OrdinalInstance object filled through append_order / append_order_array / append_order_list / append_vote_map, every rule called, ballots repeating existing orders appended (only multiplicities move, majority flipped), rules called again on the same object, interleaved rule A / append / rule B / rule A; each answer judged against the model on the instance's current multiplicity table. call sequences (300 quick): a call that raises inside a decorated body (missing k, k=0, str k, empty instance, unexpected keyword; not judged) followed IN THE SAME PROCESS by every rule on out-of-domain / in-domain instances (judged: guards and winners); storage order (500 quick): instance.orders permuted in place and / or the multiplicity dict rebuilt in another key order with the same content, then every rule. categorical gate cases (600 quick): real CategoricalInstance objects with 1 / 2 / 3 categories, complete or not, with and without an empty second category, accepted and rejected by is_approval, every rule (all must refuse except satisfaction approval on the accepted ones), each with its matching ordinal instance. non-trivial = >= 2 alternatives, >= 2 distinct ballots, some multiplicity > 1")
 EXHAUSTIVE = {"quick": "m<=3, n<=3 distinct ballots, multiplicities<=2, soc/soi/toc/toi, all 7 rules, k=1..m+2",
               "thorough": "m<=3, n<=3 distinct ballots, multiplicities<=2 (and m<=3, n<=2, multiplicities<=3), "
                           "soc/soi/toc/toi, all 7 rules, k=1..m+2"}
@@ -28,7 +28,9 @@ ASSUMPTIONS = ["instance.orders and instance.multiplicity hold the same distinct
                "orders have at least one class and no empty class; alternatives of the ballots are listed in "
                "alternatives_name; multiplicities >= 1; num_alternatives and num_voters agree with the data",
                "k-approval: k is an int >= 1",
-               "an OrdinalInstance labelled 'cat' is not sent to approval_winner / satisfaction_approval_winner "
+               "an OrdinalInstance merely LABELLED 'cat' is not judged on approval_winner / satisfaction_approval_winner; real "
+               "CategoricalInstance objects are (c06.cat): approval_winner must refuse them, satisfaction_approval_winner "
+               "scores those is_approval accepts, as /repo documents "
                "(is_approval's own guard admits 'cat' because real CategoricalInstances are in its domain)"]
 TIMEOUT_S = 20.0
 CHUNK = 200
@@ -445,6 +447,8 @@ def _targets(c):
 def oracle_requests(c, r):
     if c["op"] in ("c06.seq", "c06.perm"):
         return [("c06.all", [t, list(range(1, len(t[1]) + 3))]) for t in _targets(c)]
+    if c["op"] == "c06.cat":
+        return [("c06.all", c["payload"])]
     if c["op"] != "c06.hist":
         return [(c["op"], c["payload"])]
     if not isinstance(r, list):
@@ -618,6 +622,69 @@ def gen_permuted(rng, count):
     return out
 
 
+# ------------------------------------------------------------------------------------------------ categorical instances
+# c06.cat: [ip, ks] with ip[0] = 4 ("cat"): a REAL CategoricalInstance (preferences = tuples of num_categories
+# categories, some possibly empty).  Every ordinal rule must refuse it (R_guard); approval_winner must refuse it
+# whether or not is_approval accepts it (approval_guard: type outside soc/toc/soi/toi); satisfaction_approval_winner
+# is guarded by is_approval only (sav_guard / sav_guard_shape) — the model's gate on a "cat" instance is exactly
+# /repo's: num_categories == 1, or num_categories == 2 and every ballot lists all alternatives.
+def build_categorical(ip):
+    from preflibtools.instances import CategoricalInstance
+    _dt4, alts, n_alt, n_vot, prof = ip
+    c = CategoricalInstance()
+    ncat = len(prof[0][0])
+    c.num_categories = ncat
+    c.categories_name = {j + 1: "Category %d" % (j + 1) for j in range(ncat)}
+    c.alternatives_name = {a: "Alternative " + str(a) for a in alts}
+    c.num_alternatives = n_alt
+    for o, k in prof:
+        t = tuple(tuple(cl) for cl in o)
+        c.preferences.append(t)
+        c.multiplicity[t] = k
+    c.num_voters = n_vot
+    c.num_unique_preferences = len(c.preferences)
+    return c
+
+
+def gen_categorical(rng, count):
+    out = []
+    while len(out) < count:
+        m = rng.randint(2, 5)
+        alts = list(range(0, m)) if rng.random() < 0.2 else list(range(1, m + 1))
+        ncat = rng.choice([1, 1, 2, 2, 2, 3])
+        kind = rng.choice(["complete", "complete", "incomplete", "mixed"])
+        prof = []
+        for _ in range(rng.randint(1, 5)):
+            a = rand_perm(rng, alts)
+            complete = kind == "complete" or (kind == "mixed" and rng.random() < 0.5)
+            if not complete and m > 1:
+                a = a[: rng.randint(1, m - 1)]
+            if ncat == 1:
+                cats = [a]
+            else:
+                first = rng.randint(1, len(a))              # the second category is empty when first == len(a)
+                cuts = sorted([first] + [rng.randint(first, len(a)) for _ in range(ncat - 2)])
+                cats, prev = [], 0
+                for cpos in cuts:
+                    cats.append(a[prev:cpos])
+                    prev = cpos
+                cats.append(a[prev:])
+            if all(cats != o for o, _ in prof):
+                prof.append((cats, rng.randint(1, 9)))
+        ip = inst_payload(4, alts, prof)
+        accepted = ncat == 1 or (ncat == 2 and all(sum(len(cl) for cl in o) == m for o, _ in ip[4]))
+        label = "cat %d categor%s, %s (is_approval %s)" % (ncat, "y" if ncat == 1 else "ies", kind,
+                                                           "accepts" if accepted else "rejects")
+        out.append(case("c06.cat", [ip, list(range(1, m + 3))], gen=label, real_cat=1))
+        # the matching ordinal instance (empty categories dropped), where the approval rules must score
+        oprof = [([cl for cl in o if cl], k) for o, k in ip[4]]
+        strict = all(len(cl) == 1 for o, _ in oprof for cl in o)
+        compl = all(sum(len(cl) for cl in o) == m for o, _ in oprof)
+        odt = {(True, True): 0, (True, False): 1, (False, True): 2, (False, False): 3}[(strict, compl)]
+        out.append(all_case(odt, alts, oprof, gen="ordinal twin of a cat instance"))
+    return out[:count]
+
+
 BIG_MULTS = [2 ** 53 - 1, 2 ** 53, 2 ** 53 + 1, 2 ** 53 + 3, 2 ** 53 + 7, 2 ** 53 + 101, 2 ** 63 - 1, 2 ** 63 + 1,
              2 ** 64 + 1, 10 ** 30 + 7]
 HUGE_IDS = [10 ** 18, 2 ** 64 + 1, 10 ** 18 + 1, 2 ** 63, 2 ** 53 + 1]
@@ -696,6 +763,7 @@ def gen_big_ties(rng, count):
 def gen_random(tier, seed):
     out = exoticise(random.Random(1000003 * seed + 606), _gen_random(tier, seed))
     out.extend(gen_histories(random.Random(1000003 * seed + 6006), 550 if tier == "quick" else 7000))
+    out.extend(gen_categorical(random.Random(1000003 * seed + 66), 600 if tier == "quick" else 6000))
     out.extend(gen_sequences(random.Random(1000003 * seed + 60006), 300 if tier == "quick" else 3000))
     out.extend(gen_permuted(random.Random(1000003 * seed + 600006), 500 if tier == "quick" else 6000))
     return out
@@ -765,6 +833,10 @@ def impl(c):
     if op == "c06.perm":
         ip, po, pm = pl
         return [all_rules(lambda: build_permuted(ip, po, pm), len(ip[1]))]
+    if op == "c06.cat":
+        ip, ks = pl
+        res = [_win(fns[r], build_categorical(ip)) for r in RULES]
+        return res + [_win(W.k_approval_winner, build_categorical(ip), k) for k in ks]
     if op == "c06.all":
         ip, ks = pl
         res = []
@@ -793,14 +865,14 @@ def _skip(rule, dt):
 
 
 def _names(c):
-    if c["op"] == "c06.all":
+    if c["op"] in ("c06.all", "c06.cat"):
         return RULES + ["kapp k=%d" % k for k in c["payload"][1]]
     return [c["op"].split(".")[1]]
 
 
 def _dt(c):
     pl = c["payload"]
-    if c["op"] in ("c06.all", "c06.kapp"):
+    if c["op"] in ("c06.all", "c06.kapp", "c06.cat"):
         return pl[0][0]
     return pl[0]
 
@@ -823,14 +895,14 @@ def judge(c, r, mres):
                 return j
         return None
     m = mres[0]
-    if c["op"] != "c06.all":
+    if c["op"] not in ("c06.all", "c06.cat"):
         r, m = [r], [m]
     names = _names(c)
     if len(r) != len(names) or len(m) != len(names):
         return {"kind": "broken-correspondence", "reason": "result arity %d/%d, expected %d" % (len(r), len(m), len(names))}
     dt = _dt(c)
     for nm, ri, mi in zip(names, r, m):
-        if _skip(nm, dt):
+        if _skip(nm, dt) and c["op"] != "c06.cat":
             continue
         if ri[:2] != _canon(mi):
             what = "winner set" if mi[0] == 0 and ri[0] == 0 else "refusal / exception class"
@@ -845,7 +917,7 @@ def _prof(c):
     pl = c["payload"]
     if c["op"] == "c06.seq":
         return pl[2][0]
-    ip = pl[0] if c["op"] in ("c06.all", "c06.kapp", "c06.perm") else pl
+    ip = pl[0] if c["op"] in ("c06.all", "c06.kapp", "c06.perm", "c06.cat") else pl
     return ip
 
 
@@ -908,7 +980,7 @@ def stats(c, r, m):
                            % ("two-class complete" if ip[0] == 2 else "one-class incomplete"))
         except Exception:
             pass
-    mm = m[0] if c["op"] == "c06.all" else [m[0]]
+    mm = m[0] if c["op"] in ("c06.all", "c06.cat") else [m[0]]
     for nm, mi in zip(_names(c), mm):
         nm = nm.split(" ")[0]
         if mi[0] == 0:
@@ -930,6 +1002,11 @@ def describe_history(c, names):
 
 
 def describe(c):
+    if c["op"] == "c06.cat":
+        ip = c["payload"][0]
+        return {"op": c["op"], "instance_class": "CategoricalInstance", "num_categories": len(ip[4][0][0]),
+                "alternatives": ip[1], "preferences": [{"categories": o, "multiplicity": k} for o, k in ip[4]],
+                "results_are": RULES + ["k_approval(k=%d)" % k for k in c["payload"][1]]}
     if c["op"] == "c06.hist":
         return describe_history(c, RULES + ["kapp"])
     if c["op"] == "c06.seq":
@@ -969,6 +1046,16 @@ def shrink(c):
         if len(ts) > 1:
             for t in ts:
                 yield dict(c, payload=[kind, ip1, [t]])
+        return
+    if c["op"] == "c06.cat":
+        ip, ks = c["payload"]
+        prof = ip[4]
+        if len(prof) > 1:
+            for i in range(len(prof)):
+                yield dict(c, payload=[inst_payload(4, ip[1], prof[:i] + prof[i + 1:]), ks])
+        for i in range(len(prof)):
+            if prof[i][1] > 1:
+                yield dict(c, payload=[inst_payload(4, ip[1], prof[:i] + [(prof[i][0], 1)] + prof[i + 1:]), ks])
         return
     if c["op"] == "c06.perm":
         ip, po, pm = c["payload"]
